@@ -20,10 +20,10 @@ def NID(k, nid="N1"): return dict(op="SetNid", k=k, nid=nid)
 def PREV(k, frm): return dict(op="SetPrev", k=k, **{"from": frm})
 def G(k, nsig, nid="none", order=("k1", "k2", "k3"), hasState=False, ssig="none", skip=False):
     return dict(op="GenCerts", k=k, nid=nid, order=list(order), nsig=nsig, hasState=hasState, ssig=ssig, skip=skip)
-def ROT(k, src, which, k2, e2, n2, nid="none", order=("k1", "k2", "k3")):
-    return dict(op="Rotate", k=k, nid=nid, order=list(order), src=src, which=which, k2=k2, e2=e2, n2=n2)
-def SUB(api, mut, nb=-3, na=30, sknb=0, skna=0, k="k1", e="e1", n="n1"):
-    return dict(op="Submit", api=api, mut=mut, nb=nb, na=na, sknb=sknb, skna=skna, k=k, e=e, n=n)
+def ROT(k, src, which, k2, e2, n2, nid="none", order=("k1", "k2", "k3"), ostate="none"):
+    return dict(op="Rotate", k=k, nid=nid, order=list(order), src=src, which=which, k2=k2, e2=e2, n2=n2, ostate=ostate)
+def SUB(api, mut, nb=-3, na=30, sknb=0, skna=0, k="k1", e="e1", n="n1", prime=False):
+    return dict(op="Submit", api=api, mut=mut, nb=nb, na=na, sknb=sknb, skna=skna, k=k, e=e, n=n, prime=prime)
 
 
 B = []
@@ -58,6 +58,7 @@ for sw in (False, True):
 
 beh("f03_muts", ["C03"], [SUB(api, m) for m in ["flipBundle", "flipSig", "truncBundle", "truncSig", "signedByOther", "noBundle", "noSig", "noCertKey",
                                                  "badCertType", "noNonce", "noEncKey", "badEncType", "noiseBundle", "noiseSig"] for api in ("authorize", "fetch")])
+beh("f03_primed", ["C03"], [SUB(api, m, prime=True) for m in ["flipSig", "truncSig", "noiseSig", "noSig", "flipBundle", "signedByOther"] for api in ("authorize", "fetch")])
 beh("f03_window", ["C03"], [SUB("authorize", "none", nb=2, na=30), SUB("authorize", "none", nb=40, na=2000), SUB("fetch", "none", nb=-2000, na=-40),
                             SUB("authorize", "none", nb=-30, na=-2), SUB("authorize", "none", nb=2, na=30, sknb=-5), SUB("fetch", "none", nb=-30, na=-2, skna=5),
                             SUB("authorize", "none", nb=-30, na=-2, skna=60, k="k2"), SUB("authorize", "none", nb=40, na=2000, sknb=-60, k="k3"),
@@ -83,6 +84,16 @@ for nidl in (True, False):
                                  R("k3"), ROT("k1", "k2", "cur", "k3", "e1", "n1", nid="N1", order=("k2", "k1", "k3")),
                                  R("k3"), ROT("k1", "k2", "cur", "k3", "e1", "n1"), ROT("k2", "k1", "cur", "k3", "e1", "n1", nid="N2"),
                                  ROT("k1", "k1", "cur", "k2", "e1", "n1")], nidl=nidl)
+
+beh("f05_keykind", ["C05"], [A("k1", "e1", "n1"), A("k2", "e1", "n1"), NID("k1"), NID("k2"), dict(op="SetKeyKind", k="k1"),
+                             G("k1", "kx"), G("k1", "k1"), G("k3", "kx", nid="N1"), G("k3", "kx", nid="N1", hasState=True, ssig="kx"),
+                             G("k2", "k2", nid="N1"), G("k1", "k2", nid="N1", order=("k1", "k2", "k3"))], nidl=True)
+beh("f10_strip", ["C10"], [A("k1", "e1", "n1", "s1"), A("k2", "e2", "n2", "s2"), NID("k1"), NID("k2"), dict(op="StripSrv", k="k1"),
+                           ROT("k1", "k2", "cur", "k3", "e1", "n1", nid="N1", order=("k1", "k2", "k3")), R("k3"),
+                           ROT("k2", "k2", "cur", "k3", "e1", "n1", nid="N1", order=("k2", "k1", "k3")), R("k3"),
+                           ROT("k1", "k1", "cur", "k3", "e1", "n1")], nidl=True)
+beh("f10_ostate", ["C10"], [A("k1", "e1", "n1", "s1"), ROT("k1", "k1", "cur", "k2", "e2", "n2", ostate="s2"), A("k3", "e1", "n1"),
+                            R("k2"), ROT("k3", "k3", "cur", "k2", "e2", "n2", ostate="s1")])
 
 os.makedirs(os.path.join(HERE, "fixed"), exist_ok=True)
 with open(os.path.join(HERE, "fixed", "reg.ndjson"), "w") as f:
